@@ -110,7 +110,7 @@ PROPS["C11"] = dict(
                 "lemma_cut_exact composes writer and reader: what write_sauce_info appended is exactly what is cut.",
 )
 PROPS["C02"] = dict(
-    units=["sauce", "xbin_load", "fonts", "bin_load", "idf_load", "tnd_load"],
+    units=["sauce", "xbin_load", "fonts", "bin_load", "idf_load", "tnd_load", "tdf_load"],
     trusted_base=LOADER_TRUST,
     unverified_remainder=["IcyDraw load_buffer (PNG decoder callbacks, zTXt, base64)", "Palette::load_palette (regex)",
                           "text formats load through parse_with_parser -> an emulation on a non-terminal buffer (C01's unit covers terminal buffers)"],
@@ -209,7 +209,7 @@ PROPS["C05"] = dict(
 
 
 PROPS["C17"] = dict(
-    units=["fonts"],
+    units=["fonts", "tdf_load"],
     kani_quick=["std_spec_le_bytes"],
     trusted_base=COMMON_TRUST + [
         "S7: char obeys the hash-table key model (vstd assumes the same for the integer key types); std HashMap through vstd's specification",
@@ -218,7 +218,7 @@ PROPS["C17"] = dict(
         "BitFont::calculate_checksum is an assumed-frame function (changes only `checksum`)",
     ],
     unverified_remainder=["DCS font loading (base64), fonts embedded in XBin/ADF/IDF/IcyDraw files beyond the raw 8-bit block codec proved here, PSF1 512-glyph tables",
-                          "TheDraw fonts (TDF): as_tdf_bytes / from_tdf_bytes are NOT under contract - that half of C17 is not decided",
+                          "TheDraw fonts (TDF): from_tdf_bytes is proved total and, for the first font of a bundle, to decode type, spacing, which of the 94 glyphs are defined and each glyph's size from the TDF offsets; glyph data bytes, names, further fonts of a bundle and the writer (as_tdf_bytes / add_font_data / create_font_bundle, whose u16 offsets wrap for glyph blocks over 64 KiB) are NOT decided",
                           "built-in font pages are include_bytes! data: their content is not read by the verifier"],
     explanation="glyphs_from_u8_data is proved to build exactly the table {code i -> rows [i*h, i*h+h)} for every complete glyph below 0xD800 (and to terminate, h = 0 included); "
                 "convert_to_u8_data to emit those rows back in code order; create_8 / from_basic / load_plain_font / load_psf1 / load_psf2 / from_bytes to be total and to decode "
